@@ -31,6 +31,7 @@ def check(ctx):
     adv = [M_ADV + ":_AdversarialFairness", M_ADV + ":AdversarialFairnessClassifier", M_ADV + ":AdversarialFairnessRegressor"]
     ctx.aliased({"R19.8": "R16.8"}, _ctor_verbatim, ctx, adv, adv, 3)
     sig_by_engine = {}
+    reported = set()   # engines whose update was found and reported as deviating: decided, though without a contraction signature
     for mod, cls, lib in ENGINES:
         A = Analysis(ctx)
         fq = f"{mod}:{cls}.train_step"
@@ -46,6 +47,7 @@ def check(ctx):
         if b["tiny"] is None:
             ctx.ob("R16.1", fq, e.node, False, "no machine-epsilon guard (finfo(...).tiny) in the normalisation",
                    construct=f"{cls}: unit formula")
+            reported.add(cls)
             continue
         # the guard must be representable in the tensors' precision (both engines work in float32): a float64 `tiny`
         # (2.2e-308) added to a float32 norm rounds to 0, so a zero adversary gradient gives 0/0 = NaN weights
@@ -68,6 +70,7 @@ def check(ctx):
         if patom is None:
             ctx.ob("R16.3", fq, e.node, False, f"update is not dW_LP - proj*unit - alpha*dW_LA with unit = dW_LA/(|dW_LA| + tiny): "
                    f"{A.show(update, 300)}", construct=f"{cls}: update formula")
+            reported.add(cls)
             continue
         ctx.ob("R16.1", fq, e.node, True, "unit = dW_LA / (norm(dW_LA) + tiny) (as a factor of the update)", construct=f"{cls}: unit formula")
         ctx.ob("R16.3", fq, e.node, True, "update = dW_LP - proj*unit - alpha*dW_LA for a scalar proj", construct=f"{cls}: update formula")
@@ -83,6 +86,8 @@ def check(ctx):
                         f"contraction in proj = {A.show(patom, 160)} is not modelled"),
                        construct=f"{cls}: projection contraction")
                 bad = None
+                if known_op:
+                    reported.add(cls)
                 break
             sigs.append(s)
             if not s.is_frobenius(rank):
@@ -101,7 +106,7 @@ def check(ctx):
         ctx.ob("R16.7", f"{M_PT}:PytorchEngine.train_step", None, vals[0] == vals[1], "both back ends use the same "
                "contraction for the projection" if vals[0] == vals[1] else f"back ends disagree: {sig_by_engine}",
                construct="sibling contraction agreement")
-    ctx.floor("R16.7", "back-end train_steps with a recognised update", len(sig_by_engine), 2)
+    ctx.floor("R16.7", "back-end train_steps with a recognised update", len(set(sig_by_engine) | reported), 2)
 
 
 def _pass_y_table(ctx):
